@@ -60,6 +60,9 @@ def cases():
                             for watchers, batch in ((False, False), (True, False), (True, True)):
                                 yield dict(route=route, constant=constant, readonly=readonly, vraises=vraises, identical=identical,
                                            allow_refs=allow_refs, mode=mode, watchers=watchers, batch=batch)
+    # the value assigned is None (a sub-object detached, a value cleared): nothing about the sequence of steps changes
+    for watchers in (False, True):
+        yield dict(route="inst_init", constant=False, readonly=False, vraises=False, identical=False, allow_refs=False, mode=None, watchers=watchers, batch=False, none_value=True)
 
 
 def expected(c):
@@ -101,7 +104,7 @@ def expected(c):
 
 
 def run_case(ctx, f, c):
-    OLD, NEW = Obj("old_value"), Obj("new_value")
+    OLD, NEW = Obj("old_value"), (None if c.get("none_value") else Obj("new_value"))
     held = NEW if c["identical"] else OLD
     w_high = Obj("w_high", precedence=1)
     w_low = Obj("w_low", precedence=0)
@@ -141,7 +144,7 @@ def run_case(ctx, f, c):
             return (None, None, args[1] if len(args) > 1 else NEW, False)
         if fn == "hasattr":
             if len(args) == 2 and args[0] is NEW:
-                return args[1] in NEW.attrs         # the assigned value is a plain object: it has no attributes of its own
+                return NEW is not None and args[1] in NEW.attrs         # the assigned value is a plain object (or None): it has no attributes of its own
             return False if (len(args) == 2 and args[1] == "set_hook") else True
         if fn == "getattr" and len(args) >= 2 and isinstance(args[0], Obj):
             return args[0].attrs.get(args[1], args[2] if len(args) > 2 else TOP)
